@@ -49,6 +49,7 @@ def build(repo, tier):
     for r in RULES:
         us.append(Unit(f'{pid}/py/ProofExp.{r} keeps thunks good', dsl_unit(repo, cs, r), info={'split_depth': 1}))
     for r in ('dynamic_inst', 'instantiate'):
+        us.append(Unit(f'{pid}/py/ProofExp.{r} keeps thunks good', dsl_unit(repo, cs, r), info={'split_depth': 1}))
         for k in (1, 2, 3):
             n = f'{pid}/py/ProofExp.{r} keeps thunks good [|delta| = {k}]'
             us.append(Unit(n, dsl_unit(repo, cs, r, k), info={'split_depth': 1}))
